@@ -100,7 +100,9 @@ func c01RootKey(key int) bool { return key == 0 || key == 3 }
 
 // ---------------------------------------------------------------- generation
 
-var c01Trusts = []string{"md1", "md1-nouse", "md2", "md2-nouse", "pinned", "fingerprint"}
+// fingerprint-listed: the SP knows the IdP by the fingerprint of key 0's certificate while the IdP metadata it also holds lists the
+// certificates of keys 0 and 3 (a retired key still published): the fingerprint decides, key 3 is nobody
+var c01Trusts = []string{"md1", "md1-nouse", "md2", "md2-nouse", "pinned", "fingerprint", "fingerprint-listed"}
 
 func c01TrustedKeys(trust string) []int {
 	if strings.HasPrefix(trust, "md2") {
@@ -179,7 +181,7 @@ func c01GenOp(g *Rng, st *c01Step, k c01Knobs) c01Op {
 }
 
 func genTamper(g *Rng, tier string) *Plan {
-	k := c01Knobs{Trust: c01Trusts[g.PickW(30, 10, 15, 5, 15, 25)]}
+	k := c01Knobs{Trust: c01Trusts[g.PickW(30, 10, 15, 5, 15, 20, 10)]}
 	k.EncDecoy = g.Bool(0.45)
 	k.Hooks = g.Bool(0.2)
 	k.DupCert = strings.HasPrefix(k.Trust, "md") && g.Bool(0.3)
@@ -206,7 +208,7 @@ func genTamper(g *Rng, tier string) *Plan {
 			st.Base = "untrusted"
 		}
 		signKey := 0
-		if (strings.HasPrefix(cur, "md2") || rotateAt >= 0 || k.Trust == "pinned") && g.Bool(0.4) {
+		if (strings.HasPrefix(cur, "md2") || rotateAt >= 0 || k.Trust == "pinned" || k.Trust == "fingerprint-listed") && g.Bool(0.4) {
 			signKey = 3 // trusted under md2; retired (or not yet introduced) under md1; listed in the metadata but excluded by a pinned certificate
 		}
 		if st.Base == "untrusted" {
@@ -1794,6 +1796,9 @@ func c01NewSP(k c01Knobs) *saml.ServiceProvider {
 	if k.Trust == "pinned" {
 		signing = []KeyPair{rsaKeys[3]} // the metadata lists another certificate: pinning must exclude it
 	}
+	if k.Trust == "fingerprint-listed" {
+		signing = []KeyPair{rsaKeys[0], rsaKeys[3]}
+	}
 	md := idpMetadataFor(idpEntity, idpSSO, idpSLO, signing, enc, use)
 	cert := func(kp KeyPair, use string) saml.KeyDescriptor {
 		return saml.KeyDescriptor{Use: use, KeyInfo: saml.KeyInfo{X509Data: saml.X509Data{X509Certificates: []saml.X509Certificate{{Data: kp.CertB64()}}}}}
@@ -1812,7 +1817,7 @@ func c01NewSP(k c01Knobs) *saml.ServiceProvider {
 	case "pinned":
 		s := rsaKeys[0].CertB64()
 		spv.IDPCertificate = &s
-	case "fingerprint":
+	case "fingerprint", "fingerprint-listed":
 		fp, algo := c01Fingerprint(rsaKeys[0]), c01FPAlgo
 		spv.IDPCertificateFingerprint = &fp
 		spv.IDPCertificateFingerprintAlgorithm = &algo
